@@ -27,6 +27,17 @@
  *        one iteration of JsonRpcConnection::HandleIncomingMessages over the TLS connection:
  *        JsonRpc::ReadMessage, JsonRpc::DecodeMessage, message->Get("method")
  *   U <hexbytes> | <hex of Utility::ValidateUTF8(bytes)>          the UTF-8 sanitising step on arbitrary bytes
+ *   C <auth 0|1> <ep 0|1> <items> <cuts> | d<id.id...|-> <closed|hang>
+ *        a REAL, started JsonRpcConnection (constructor, Start(), HandleIncomingMessages, MessageHandler, Disconnect) on
+ *        the server end of the TLS connection: auth = the `authenticated` constructor argument, ep = the identity names
+ *        a configured Endpoint object (1) or nothing (0).  items (comma separated) make up the stream the peer sends:
+ *        p<n> = one canonical frame carrying {"jsonrpc":"2.0","method":"verif::probe","params":{"i":<index of the item>,
+ *        "pad":"x"*n}}, r<hex> = raw bytes (last item only).  Observation: the `i` of every message that reached the
+ *        registered handler of verif::probe, in order, and whether the connection shut itself down after the peer's
+ *        end of stream.
+ *   S <hexbytes> | ok <attempt> | err
+ *        ConfigObject::RestoreObjects on a state file with these bytes (a Host "vh" exists, check_attempt reset to 1
+ *        before): returned (check_attempt of vh afterwards) or threw
  *   X <signal> <operation line>       printed by the parent: the child died (signal; 0 = exit code != 0, 14 = hang)
  *        while processing that operation
  *
@@ -44,6 +55,13 @@
 #include "base/array.hpp"
 #include "base/dictionary.hpp"
 #include "remote/jsonrpc.hpp"
+#include "remote/jsonrpcconnection.hpp"
+#include "remote/apilistener.hpp"
+#include "remote/apifunction.hpp"
+#include "remote/endpoint.hpp"
+#include "remote/messageorigin.hpp"
+#include "base/configobject.hpp"
+#include "base/configuration.hpp"
 #include <boost/asio.hpp>
 #include <boost/asio/ssl.hpp>
 #include <openssl/evp.h>
@@ -51,6 +69,8 @@
 #include <cmath>
 #include <fstream>
 #include <thread>
+#include <future>
+#include <mutex>
 #include <sys/mman.h>
 #include <sys/wait.h>
 #include <signal.h>
@@ -59,6 +79,14 @@
 using namespace icinga;
 using namespace vh;
 namespace asio = boost::asio;
+
+/* access to the private static ApiListener::m_Instance (explicit instantiation may name private members) */
+struct ApiInstTag { typedef ApiListener::Ptr *type; };
+template<typename Tag> struct Stash { static typename Tag::type value; };
+template<typename Tag> typename Tag::type Stash<Tag>::value;
+template<typename Tag, typename Tag::type M> struct RobFill { RobFill() { Stash<Tag>::value = M; } static RobFill inst; };
+template<typename Tag, typename Tag::type M> RobFill<Tag, M> RobFill<Tag, M>::inst;
+template struct RobFill<ApiInstTag, &ApiListener::m_Instance>;
 
 /* ---------------------------------------------------------------- hex helpers */
 
@@ -379,6 +407,136 @@ static void DoTls(char variant, long long max, const std::string& hex, const std
 	client->lowest_layer().close(ec);
 	server->lowest_layer().close(ec);
 	printf("%c %c %lld %s %s | %s\n", decode ? 'M' : 'T', variant, max, hex.c_str(), cuts.c_str(), obs.c_str());
+}
+
+
+/* ---------------------------------------------------------------- a real JsonRpcConnection (limit selection, receive loop) */
+
+
+static std::vector<long long> l_Delivered;
+static std::mutex l_DeliveredMutex;
+
+static Value ProbeHandler(const MessageOrigin::Ptr&, const Dictionary::Ptr& params)
+{
+	std::unique_lock<std::mutex> lock(l_DeliveredMutex);
+	l_Delivered.push_back((long long)(double)params->Get("i"));
+	return Empty;
+}
+
+static std::string ProbePayload(size_t idx, size_t pad)
+{
+	return "{\"jsonrpc\":\"2.0\",\"method\":\"verif::probe\",\"params\":{\"i\":" + std::to_string(idx) + ",\"pad\":\"" + std::string(pad, 'x') + "\"}}";
+}
+
+static std::string Frame(const std::string& p);
+
+static bool ConnStream(const std::string& items, std::string& out)
+{
+	out.clear();
+	size_t idx = 0;
+	if (items != "-")
+		for (auto& it : Split(items, ',')) {
+			if (it.empty()) return false;
+			if (it[0] == 'p') out += Frame(ProbePayload(idx, strtoull(it.c_str() + 1, nullptr, 10)));
+			else if (it[0] == 'r') { std::string raw; if (!UnHex(it.substr(1), raw)) return false; out += raw; }
+			else return false;
+			idx++;
+		}
+	return true;
+}
+
+static void DoConn(int auth, int ep, const std::string& items, const std::string& cuts)
+{
+	/* sanitizer pass: the connection's receive loop runs on Boost coroutine stacks and ends with an exception (end of stream,
+	 * rejected frame) -- ASan cannot follow those (see DoTls); the connection cases are left to the regular pass */
+	static const bool noCoro = getenv("C20_NO_CORO") != nullptr;
+	if (noCoro) return;
+	if (l_Emit) { Emit("C " + std::to_string(auth) + " " + std::to_string(ep) + " " + items + " " + cuts); return; }
+	std::string bytes;
+	if (!ConnStream(items, bytes)) { fprintf(stderr, "bad items\n"); _exit(2); }
+	static bool once = false;
+	if (!once) {
+		once = true;
+		/* Disconnect() of an anonymous connection and Endpoint::Add/RemoveClient ask the ApiListener singleton (no
+		 * certificates, no listening socket needed for that) */
+		*Stash<ApiInstTag>::value = new ApiListener();
+		Endpoint::Ptr e = new Endpoint();
+		e->SetName("vep");
+		e->Register();
+		ApiFunction::Register("verif::probe", new ApiFunction(&ProbeHandler));
+	}
+	/* the connection lives on the IoEngine's io_context (public constructor), served by the IoEngine's threads; the peer is
+	 * this thread, with blocking operations */
+	Tls& t = *l_Tls;
+	auto server = Shared<AsioTlsStream>::Make(IoEngine::Get().GetIoContext(), t.sctx);
+	auto client = Shared<AsioTlsStream>::Make(t.io, t.cctx);
+	client->lowest_layer().connect(t.acceptor.local_endpoint());
+	t.acceptor.accept(server->lowest_layer());
+	client->lowest_layer().set_option(asio::ip::tcp::no_delay(true));
+	std::promise<bool> hsDone;
+	server->next_layer().async_handshake(asio::ssl::stream_base::server, [&](const boost::system::error_code& ec) { hsDone.set_value(!ec); });
+	boost::system::error_code hec;
+	client->next_layer().handshake(asio::ssl::stream_base::client, hec);
+	if (hec || !hsDone.get_future().get()) { fprintf(stderr, "TLS handshake failed\n"); _exit(3); }
+
+	{ std::unique_lock<std::mutex> lock(l_DeliveredMutex); l_Delivered.clear(); }
+	String identity = ep ? "vep" : "nobody";
+	JsonRpcConnection::Ptr conn = new JsonRpcConnection(identity, auth != 0, server, RoleServer);
+	/* what ApiListener::NewClientHandlerInternal does with the new connection */
+	Endpoint::Ptr endpoint = conn->GetEndpoint();
+	if (endpoint) endpoint->AddClient(conn); else ApiListener::GetInstance()->AddAnonymousClient(conn);
+	conn->Start();
+
+	/* the peer: the stream in the given write sizes, end of stream, then wait until the connection has shut itself down
+	 * (a receiver that neither reads nor closes ends the child through its alarm: reported as a hang) */
+	try {
+		for (auto& c : Cut(bytes, cuts))
+			asio::write(client->next_layer(), asio::buffer(c.data(), c.size()));
+	} catch (const std::exception&) { /* the connection was shut down by the receiver: fine */ }
+	boost::system::error_code ec;
+	client->lowest_layer().shutdown(asio::ip::tcp::socket::shutdown_send, ec);
+	for (;;) {
+		char buf[4096];
+		boost::system::error_code rec;
+		size_t n = client->next_layer().read_some(asio::buffer(buf, sizeof buf), rec);
+		if (rec || !n) break;
+	}
+	client->lowest_layer().close(ec);
+	std::string d;
+	{
+		std::unique_lock<std::mutex> lock(l_DeliveredMutex);
+		for (long long i : l_Delivered) { if (!d.empty()) d += '.'; d += std::to_string(i); }
+	}
+	printf("C %d %d %s %s | d%s closed\n", auth, ep, items.c_str(), cuts.c_str(), d.empty() ? "-" : d.c_str());
+}
+
+/* ---------------------------------------------------------------- state file: ConfigObject::RestoreObjects */
+
+static void DoState(const std::string& hex)
+{
+	if (l_Emit) { Emit("S " + hex); return; }
+	std::string bytes;
+	if (!UnHex(hex, bytes)) { fprintf(stderr, "bad hex\n"); _exit(2); }
+	static Host::Ptr host;
+	if (!host) {
+		host = new Host();
+		host->SetName("vh");
+		host->Register();
+		Configuration::Concurrency = 2;
+	}
+	host->SetCheckAttempt(1);
+	char path[64];
+	snprintf(path, sizeof path, "/tmp/vd_c20_state.%d", (int)getpid());
+	{ std::ofstream f(path, std::ios::binary | std::ios::trunc); f.write(bytes.data(), bytes.size()); }
+	std::string obs;
+	try {
+		ConfigObject::RestoreObjects(path, FAState);
+		obs = "ok " + std::to_string(host->GetCheckAttempt());
+	} catch (const std::exception&) {
+		obs = "err";
+	}
+	unlink(path);
+	printf("S %s | %s\n", hex.c_str(), obs.c_str());
 }
 
 /* ---------------------------------------------------------------- JSON */
@@ -988,6 +1146,91 @@ static void Generate(uint64_t seed, bool thorough)
 		else { s = Frame(genMsg(r)); if (r.below(4) == 0) s += GenHostileStream(r); }
 		DoTls(r.coin() ? 's' : 'c', max, Hex(s), RandomCuts(r, s.size()), true);
 	}
+
+	/* --- a real JsonRpcConnection: which limit applies to which peer (jsonrpcconnection.cpp:45-46,75), the receive loop */
+	{
+		const size_t MiB = 1048576;
+		auto padFor = [](size_t idx, size_t payloadLen) { return payloadLen - ProbePayload(idx, 0).size(); };
+		for (int auth = 0; auth < 2; auth++)
+			for (int ep = 0; ep < 2; ep++) {
+				DoConn(auth, ep, "-", "-");
+				DoConn(auth, ep, "p0,p10,p100", "-");
+				DoConn(auth, ep, "p0,p10,p100", "1,1,1,1,1,1,1,1,1,1,1,1,1,1,1,1,1,1,1,1,1,1,1,1,1,1,1,1,1,1,1,1,1,1,1,1,1,1,1,1,1,1,1,1,1,1,1,1,1,1,1,1,1,1,1,1,1,1,1,1,1,1,1,1,1,1,1,1,1,1,1,1,1,1,1,1,1,1,1,1,1,1,1,1,1,1,1,1,1,1,1,1,1,1,1,1,1,1,1,1");
+				DoConn(auth, ep, "p3,r" + Hex("4:null,"), "-");
+				DoConn(auth, ep, "p3,r" + Hex("00:,"), "-");
+				DoConn(auth, ep, "p3,p4,r" + Hex("2:[],"), "-");
+				DoConn(auth, ep, "p" + std::to_string(padFor(0, MiB)) + ",p7", "-");              /* exactly 1 MiB: within every limit */
+				if (auth && !ep) continue;   /* an authenticated peer without Endpoint object: the statement names no limit for it */
+				DoConn(auth, ep, "p" + std::to_string(padFor(0, MiB + 1)) + ",p7", "-");          /* one byte more */
+				DoConn(auth, ep, "p5,p" + std::to_string(padFor(1, MiB + 1)) + ",p7", "-");
+				DoConn(auth, ep, "p5,p" + std::to_string(padFor(1, 2 * MiB + 12345)) + ",p7", "-");
+				if (thorough) DoConn(auth, ep, "p" + std::to_string(padFor(0, 10 * MiB)) + ",p7", "-");
+				DoConn(auth, ep, "p1,r" + Hex("1048577:abc"), "-");
+				DoConn(auth, ep, "p1,r" + Hex("999999999:"), "-");
+			}
+		for (int i = 0; i < (thorough ? 2500 : 500); i++) {
+			int auth = (int)r.below(2), ep = (int)r.below(2);
+			std::string items;
+			size_t total = 0;
+			int k = (int)r.below(5);
+			for (int j = 0; j < k; j++) {
+				size_t pad = r.below(10) == 0 ? r.below(5000) : r.below(40);
+				if (!items.empty()) items += ',';
+				items += "p" + std::to_string(pad);
+				total += Frame(ProbePayload(j, pad)).size();
+			}
+			if (r.below(3) == 0) {
+				std::string tail = r.below(4) == 0 ? Frame(msgs[r.below(sizeof msgs / sizeof *msgs)]) : GenHostileStream(r);
+				if (!tail.empty()) {
+					if (!items.empty()) items += ',';
+					items += "r" + Hex(tail);
+					total += tail.size();
+				}
+			}
+			if (items.empty()) items = "-";
+			DoConn(auth, ep, items, RandomCuts(r, total));
+		}
+	}
+
+	/* --- the state file: ConfigObject::RestoreObjects on well-framed records that are not what RestoreObject expects, and
+	 *     on damaged framing */
+	{
+		static const char *recs[] = { "null", " null ", "[]", "5", "\"x\"", "\"\"", "true", "false", "{}", "[null]", "nul", "", "{",
+			"{\"type\":\"Host\"}", "{\"name\":\"vh\"}", "{\"type\":\"Host\",\"name\":\"vh\"}",
+			"{\"type\":\"Host\",\"name\":\"vh\",\"update\":null}", "{\"type\":\"Host\",\"name\":\"vh\",\"update\":[]}",
+			"{\"type\":\"Host\",\"name\":\"vh\",\"update\":5}", "{\"type\":\"Host\",\"name\":\"vh\",\"update\":\"s\"}",
+			"{\"type\":\"Host\",\"name\":\"vh\",\"update\":{}}", "{\"type\":\"Host\",\"name\":\"vh\",\"update\":true}",
+			"{\"type\":null,\"name\":null,\"update\":{}}", "{\"type\":[],\"name\":\"vh\",\"update\":{}}", "{\"type\":\"Host\",\"name\":[],\"update\":{}}",
+			"{\"type\":{},\"name\":{},\"update\":{}}", "{\"type\":5,\"name\":6,\"update\":{}}", "{\"type\":true,\"name\":\"vh\",\"update\":{}}",
+			"{\"type\":\"Host\",\"name\":\"nohost\",\"update\":{\"check_attempt\":9}}", "{\"type\":\"NoSuchType\",\"name\":\"vh\",\"update\":{}}",
+			"{\"type\":\"Array\",\"name\":\"vh\",\"update\":{}}", "{\"type\":\"\",\"name\":\"\",\"update\":{}}",
+			"{\"type\":\"Host\",\"name\":\"vh\",\"update\":{\"check_attempt\":\"x\"}}", "{\"type\":\"Host\",\"name\":\"vh\",\"update\":{\"check_attempt\":[]}}",
+			"{\"type\":\"Host\",\"name\":\"vh\",\"update\":{\"check_attempt\":null}}", "{\"type\":\"Host\",\"name\":\"vh\",\"update\":{\"no_such_attribute\":1}}",
+			"{\"update\":{\"check_attempt\":9}}", "[{\"type\":\"Host\",\"name\":\"vh\",\"update\":{\"check_attempt\":9}}]" };
+		const std::string valid = "{\"type\":\"Host\",\"name\":\"vh\",\"update\":{\"type\":\"Host\",\"check_attempt\":3}}";
+		const size_t nrecs = sizeof recs / sizeof *recs;
+		DoState(Hex(""));
+		DoState(Hex(Frame(valid)));
+		for (const char *rec : recs) {
+			DoState(Hex(Frame(rec)));
+			DoState(Hex(Frame(valid) + Frame(rec)));
+			DoState(Hex(Frame(rec) + Frame(valid)));
+		}
+		for (int i = 0; i < (thorough ? 6000 : 1200); i++) {
+			std::string f;
+			int k = 1 + (int)r.below(3);
+			int validAt = r.below(3) == 0 ? -1 : (int)r.below(k);       /* at most one record that really applies: the records run in parallel */
+			for (int j = 0; j < k; j++) f += Frame(j == validAt ? valid : std::string(recs[r.below(nrecs)]));
+			switch (r.below(6)) {
+				case 0: f.resize(r.below(f.size() + 1)); break;
+				case 1: f[r.below(f.size())] = "0123456789:,a"[r.below(13)]; break;
+				case 2: f += GenHostileStream(r); break;
+				case 3: f = GenHostileStream(r) + f; break;
+				default: break;
+			}
+			DoState(Hex(f));
+		}
+	}
 }
 
 /* execute one operation line against the real code (child process) */
@@ -1009,6 +1252,8 @@ static bool ExecLine(const std::string& line)
 	else if (w[0] == "K" && w.size() == 2) DoJsonText(w[1]);
 	else if (w[0] == "D" && w.size() == 2) DoMessage(w[1]);
 	else if (w[0] == "U" && w.size() == 2) DoUtf8(w[1]);
+	else if (w[0] == "C" && w.size() == 5) DoConn(atoi(w[1].c_str()), atoi(w[2].c_str()), w[3], w[4]);
+	else if (w[0] == "S" && w.size() == 2) DoState(w[1]);
 	else return false;
 	return true;
 }
@@ -1048,6 +1293,7 @@ static void FlushBatch()
 		if (WIFEXITED(status) && WEXITSTATUS(status) == 2) _exit(2);   /* unreadable operation line: harness usage error */
 		size_t i = *cur;
 		int sig = WIFSIGNALED(status) ? WTERMSIG(status) : 0;
+		{ char path[64]; snprintf(path, sizeof path, "/tmp/vd_c20_state.%d", (int)pid); unlink(path); }
 		/* a partially written line of the dead child may precede this one: start on a fresh line */
 		printf("\nX %d %s\n", sig, l_Batch[i].c_str());
 		start = i + 1;
